@@ -78,6 +78,7 @@ def run_tlc_to_file(spec: str, cfg: str, path: str, *, workers=1, extra=(), time
         shutil.rmtree(meta, ignore_errors=True)
 
 
+DUPLICATE_VERDICT_LINES: list = []      # (batch tag, trace id, verdict) of VERDICT lines that TLC printed twice
 _VERDICT = re.compile(r'<<"VERDICT",\s*(\d+),\s*"([^"]*)",\s*(\d+)>>')
 _STATS = re.compile(r"(\d+) states generated, (\d+) distinct states found")
 
@@ -106,9 +107,13 @@ def validate_batch(spec: str, cfg: str, clauses: list[str], traces: list[list[di
     verdicts = {}
     for m in _VERDICT.finditer(out):
         tid = int(m.group(1))
+        v = (m.group(2), int(m.group(3)))
+        if tid in verdicts and verdicts[tid] != v:
+            raise MachineryError(f"two different verdicts for trace {tid}: {verdicts[tid]} and {v}")
+        # (the same line printed twice - TLC may evaluate a PrintT conjunct more than once - is one verdict)
         if tid in verdicts:
-            raise MachineryError(f"two verdicts for trace {tid}")
-        verdicts[tid] = (m.group(2), int(m.group(3)))
+            DUPLICATE_VERDICT_LINES.append((tag, tid, v))
+        verdicts[tid] = v
     if len(verdicts) != len(traces) or rc != 0:
         if len(traces) > 1 and _depth < 12:
             # an evaluation error of the specification on ONE trace aborts the JVM: isolate it by bisection so that the
